@@ -43,21 +43,23 @@ ASSUMPTIONS = [
 ]
 
 BUFSIZES = [1, 2, 3, 7, 16, 64, 4096]
-ENDS = ["close", "timeout", "oserror"]
+ENDS = ["close", "timeout", "oserror", "reset", "aborted"]
 
 
 def floors(tier):
     return {"reader": 2500, "wrapper": 1500, "real-socket": 40, "split-inside-frame": 1000,
-            "end=close": 500, "end=timeout": 500, "end=oserror": 500, "all-compositions": 1000,
+            "end=close": 300, "end=timeout": 300, "end=oserror": 300, "end=reset": 300, "end=aborted": 300, "all-compositions": 1000,
             "bufsize=1": 100, "bufsize=4096": 100, "session>64KiB": 12, "quiet-period": 200,
-            "reader-sole-owner-of-socket": 300, "quiet-period:non-blocking-socket": 50}
+            "reader-sole-owner-of-socket": 300, "quiet-period:non-blocking-socket": 50,
+            "duplex": 300, "sock=tls-like": 30, "sock=datagram": 30, "writes-fail": 100, "blocking": 100}
 
 
 def plan(tier, seed):
     return [{"what": "reader", "part": i} for i in range(8)] + [{"what": "long", "part": i} for i in range(4)] + [
         {"what": "compositions", "part": i} for i in range(4)] + [
         {"what": "wrapper", "part": i} for i in range(3)] + [{"what": "real"}, {"what": "pauses", "part": 0},
-                                                             {"what": "pauses", "part": 1}]
+                                                             {"what": "pauses", "part": 1}, {"what": "duplex", "part": 0},
+                                                            {"what": "duplex", "part": 1}]
 
 
 def frame_spans(items):
@@ -251,6 +253,60 @@ def check_one(case) -> core.Out:
             finally:
                 sock.close()
             return out
+        if k == "duplex":
+            # the application also writes to the socket (polls, configuration) between reads
+            # - successfully or not -, the socket may be a blocking one, a message-oriented
+            # one, or a subclass with read() / write() of its own (like ssl.SSLSocket)
+            data, opts = bytes(case["data"]), dict(case["opts"])
+            sockkind, blocking, wfail = case["sock"], case["blocking"], case["write_fails"]
+            out = core.Out(classes=["duplex", f"sock={sockkind}", "writes-fail" if wfail else "writes-succeed",
+                                    "blocking" if blocking else "timeout-socket"],
+                           dig=core.digest((data, case["chunks"], case["bufsize"], sockkind, blocking, wfail, case["every"])))
+            want, exc = S.read_all(io.BytesIO(data), opts, limit=4 * len(data) + 50)
+            if exc is not None:
+                out.classes = ["skipped:file-run-raises(C08)"]
+                return out
+            cls = S.TLSLikeSocket if sockkind == "tls-like" else S.ScriptedSocket
+            chunks = list(case["chunks"])
+            if sockkind == "datagram":
+                chunks = [min(c, case["bufsize"]) for c in chunks] + [case["bufsize"]] * (len(data) // case["bufsize"] + 2)
+            sock = cls(data, chunks, "close", pauses=case["pauses"], datagram=sockkind == "datagram",
+                       write_fails={0: None, 1: BrokenPipeError, 2: ConnectionResetError}[wfail])
+            sock.settimeout(None if blocking else 0.25)
+            try:
+                with S.deadline():
+                    rd = S.mk_reader(sock, dict(opts, bufsize=case["bufsize"]))
+                    got, idle = [], 0
+                    for _ in range(4 * len(data) + 50):
+                        raw, parsed = rd.read()
+                        if raw is None and parsed is None:
+                            idle += 1
+                            if blocking or idle > len(case["pauses"]) + 1:
+                                break  # (a blocking socket only reports the end once)
+                            continue
+                        got.append((raw, parsed))
+                        if case["every"] and len(got) % case["every"] == 0:
+                            try:
+                                rd.datastream.write(b"\xb5\x62\x0a\x04\x00\x00\x0e\x34")
+                            except OSError:
+                                pass  # the application notes that its poll could not be sent
+            except Exception as err:  # noqa
+                out.viol.append((f"{PROP}|duplex|raises:{type(err).__name__}", repr(err)[:200]))
+                return out
+            finally:
+                tmo = sock.gettimeout()
+                sock.close()
+            out.nontrivial = True
+            out.sample = {"data": data[:32], "socket": sockkind, "blocking": blocking, "writes fail": bool(wfail),
+                          "written": len(sock.sent), "pauses": case["pauses"][:4]}
+            if not S.same_items(got, want):
+                out.viol.append((f"{PROP}|duplex|{sockkind}|items-differ",
+                                 f"{len(got)} items via a {sockkind} socket ({'blocking' if blocking else 'with timeout'}, "
+                                 f"{len(sock.sent)} writes{' that failed' if wfail else ''}) vs {len(want)} via file; "
+                                 f"data {data[:40].hex()}"))
+            elif tmo != (None if blocking else 0.25):
+                out.viol.append((f"{PROP}|duplex|timeout-changed", f"the socket's timeout is {tmo!r} after the session"))
+            return out
         if k == "real":
             data = bytes(case["data"])
             opts = dict(case["opts"])
@@ -410,6 +466,27 @@ def run_shard(spec, ctx, acc):
                         "opts": {"msgmode": 0, "validate": 1, "parsebitfield": 1, "quitonerror": 0, "protfilter": 7},
                         "chunks": [step] * (len(data) // step + 2), "bufsize": bufsize, "end": end}
                 core.handle(acc, core.checked(check, case), case, known)
+        return
+    if what == "duplex":
+        @st.composite
+        def dx(draw):
+            items = draw(streams.clean_streams(2, 6))
+            data = streams.stream_bytes(items)
+            n = len(data)
+            bufsize = draw(st.sampled_from([16, 64, 4096]))
+            ends, off = [], 0
+            for it in items:
+                off += len(it["b"])
+                ends.append(off)
+            return {"kind": "duplex", "data": data, "opts": draw(OPTS),
+                    "chunks": draw(st.lists(st.integers(1, max(1, min(n, 300))), max_size=12)), "bufsize": bufsize,
+                    "pauses": sorted(set(draw(st.lists(st.sampled_from(ends[:-1] or [0]), max_size=3)))),
+                    "sock": draw(st.sampled_from(["plain", "plain", "tls-like", "datagram"])),
+                    "blocking": draw(st.booleans()), "write_fails": draw(st.sampled_from([0, 0, 1, 2])),
+                    "every": draw(st.sampled_from([0, 1, 2, 3]))}
+
+        core.hyp_search(acc, dx(), check, seed=core.derive(ctx["seed"], PROP, "dx", spec["part"]),
+                        max_examples=200 if quick else 4000, known=known, rounds=3)
         return
     if what == "pauses":
         # quiet periods: the receive times out once at a frame boundary, the consumer
